@@ -32,6 +32,7 @@ VIOLATIONS = [
     ('r04-value-name', 'dotted value name', ['task', 'analysis', 'regress']),
     ('r05-empty-sv', 'state vector without predefined keys', ['task', 'analysis', 'regress']),
     ('r07-unpicklable', 'value that cannot be pickled', ['task', 'analysis', 'regress']),
+    ('r07-unloadable', 'value that pickles but cannot be loaded back', ['task', 'analysis', 'regress']),
     ('r08-feat-type', 'V_REF.feat is not a string', ['analysis', 'regress']),
     ('r08-item-type', 'SV_REF.item is not a state vector', ['analysis', 'regress']),
     ('r09-no-sv', 'routine without state vectors', ['task', 'analysis', 'regress']),
@@ -151,6 +152,13 @@ def build(kinds, vio, where):
             self.hook = lambda: None  # local function: not picklable
 
         vc.__init__ = v_init
+    elif vio == 'r07-unloadable':
+        vc = ae.valclass[f'tp.{ALGN[where]}.s.v']
+
+        def bad_setstate(self, state):
+            raise TypeError('__init__() missing 1 required positional argument')
+
+        vc.__setstate__ = bad_setstate
     elif vio == 'r08-feat-type':
         setattr(cls, dep, lambda self: [ae._ref(up + ('s', 'v'))._replace(feat=3)])
     elif vio == 'r08-item-type':
@@ -215,7 +223,7 @@ def body(kmask, vio, pos):
 
 INFO = {
     'explanation': 'Program-shaped exploration: the set of factory kinds a package offers (every non-empty subset of task / analysis / regression / '
-    'events), one architecture violation out of 20 (or none) and the position it is injected at are z3 selectors; for every combination the '
+    'events), one architecture violation out of 21 (or none) and the position it is injected at are z3 selectors; for every combination the '
     'harness materialises the package as in-memory modules/classes (registered through the real dawgie.base.Factories), runs the real '
     'tools.compliant._verify with all of rule_01..rule_11 and requires acceptance exactly when nothing was injected; every accepted package is '
     'then fed to the real dag.Construct, schedule.build and schedule.periodics, which must not fail. The solver steers/exhausts the combination '
@@ -223,7 +231,7 @@ INFO = {
     'rule': 'one case = one (factory-kind subset, violation, position); non-trivial = _verify was evaluated',
     'functions': ['tools.compliant._verify', '_walk', '_get_rules', 'rule_01', 'rule_02', 'rule_03', 'rule_04', 'rule_05', 'rule_06', 'rule_07', 'rule_08', 'rule_09', 'rule_10', 'rule_11',
                   'pl.dag.Construct', 'pl.schedule.build', 'pl.schedule.periodics', 'pl.schedule.defer'],
-    'bounds': {'quick': 'all 15 factory-kind subsets x 21 injected conditions x applicable positions (one package of <=3 routines plus a helper package)',
+    'bounds': {'quick': 'all 15 factory-kind subsets x 22 injected conditions x applicable positions (one package of <=3 routines plus a helper package)',
                'thorough': 'same (the space is exhausted in the quick tier)'},
     'assumptions': ['packages are in-memory modules in sys.modules (importlib.import_module finds them); violations are injected by editing the generated classes/factories',
                     'rule_06 (factory/implementation module consistency) is exercised on compliant packages only'],
